@@ -535,6 +535,12 @@ def rt_lattice(tier):
         if tier == "thorough":
             pts.append(g1.Point((g1.F("a", a1, d1, "meta", r1), g1.F("b", a2, d2, "config")), by_alias=True))
             pts.append(g1.Point((g1.F("a", a1, d1, "-", r1), g1.F("b", a2, d2)), base="plain"))
+    # aliases that shadow other fields' names (the alias of one field is the name of another), serialized by alias and
+    # read back with the name accepted as a fallback: the wire keys are distinct, nothing may move between fields
+    for (a1, d1), src in itertools.product((("Hs", "MISSING"), ("Hs", "value"), ("OptHs", "None"), ("Any", "value"), ("int", "value")), ("meta", "annotated", "config")):
+        for allow in (False, True):
+            pts.append(g1.Point((g1.F("a", a1, d1, src, "pos" if d1 == "MISSING" else "kw_only", alias_name="b"), g1.F("b", "Hs", "value", src, "kw_only", alias_name="c"),
+                                 g1.F("c", "Any", "value", src, "kw_only", alias_name="a")), by_alias=True, allow_not_by_alias=allow))
     if tier == "thorough":
         for ks in itertools.product(kinds[:5], repeat=3):
             fields, seen_default = [], False
